@@ -5,7 +5,7 @@
 (*  {"e":"Recv","c":cls,"w":wrapper,"i":inner kind,                         *)
 (*   "x":{"own":B,"ofrom":..,"hasfrom":bool,"oto":..,"oid":..,"obody":..,   *)
 (*        "otype":..},                     the outer stanza as injected       *)
-(*   "inners":[{from,to,id,body,type}..],  the wrapped message(s)             *)
+(*   "inners":[{from,to,id,body,type,priv,stamp}..],  the wrapped message(s)  *)
 (*   "never":[{id,body}..],                messages wrapped inside a wrapped  *)
 (*                                         one (second level)                 *)
 (*   "shown":[{ch,from,to,id,body,type,fwd}..]}  what the application saw,    *)
@@ -43,8 +43,10 @@ SeqRange(s) == {s[k] : k \in 1..Len(s)}
 (* --- facts derived from one logged line ----------------------------------- *)
 \* m carries the identity of the wrapped / second-level message k
 Token(m, k) == m.id = k.id \/ (k.body # "" /\ m.body = k.body)
-SameMsg(m, k) == m.from = k.from /\ m.to = k.to /\ m.id = k.id /\ m.body = k.body /\ m.type = k.type
-SameOuter(m, x) == m.from = x.ofrom /\ m.to = x.oto /\ m.id = x.oid /\ m.body = x.obody /\ m.type = x.otype
+SameMsg(m, k) == /\ m.from = k.from /\ m.to = k.to /\ m.id = k.id /\ m.body = k.body /\ m.type = k.type
+                 /\ m.priv = k.priv /\ m.stamp = k.stamp         \* <private/> marker and delay stamp of the inner message
+SameOuter(m, x) == /\ m.from = x.ofrom /\ m.to = x.oto /\ m.id = x.oid /\ m.body = x.obody /\ m.type = x.otype
+                   /\ m.priv = x.opriv /\ m.stamp = ""
 
 \* the message shown has inner content or claims to be a carbon
 Touches(m, ev) == m.fwd \/ (\E k \in SeqRange(ev.inners) : Token(m, k)) \/ (\E k \in SeqRange(ev.never) : Token(m, k))
